@@ -89,10 +89,7 @@ def kernel_kinds(run):
         out = os.path.join(root, "steel_core.mir")
         env = dict(os.environ, CARGO_NET_OFFLINE="true")
         env.pop("RUSTFLAGS", None)
-        with open(out, "w") as f, open(os.path.join(root, "mir.err"), "w") as e:
-            subprocess.run(["cargo", "+nightly", "rustc", "--offline", "-p", "steel-core", "--lib", "--no-default-features",
-                            "--features", ws.FEATURES, "--target-dir", os.path.join(root, "tmir"), "--",
-                            "-Zunpretty=mir", "-C", "debug-assertions=off"], cwd=wsdir, stdout=f, stderr=e, env=env)
+        ws.mir_dump(wsdir, root, out, env)
         run._mir = dict(wsdir=wsdir, root=root, out=out, reg=p_bounds.registered(os.path.join(wsdir, "crates", "steel-core", "src")), env=env)
     except Exception as ex:
         run.ob("kinds:numeric-kernels", "inconclusive", reason=str(ex)[-300:], engine="mir-smt")
